@@ -105,8 +105,9 @@ class SimpleSystem:
                 dg = None
             if found:
                 issues.extend(found[:3])
-                leaves += 1
-                continue
+                if any(f.get("kind") != "known" for f in found):
+                    leaves += 1
+                    continue      # a listed known finding does not end the exploration of that state
             children.append((dg, opi))
         if transitions == 0:
             leaves += 1
